@@ -5,7 +5,9 @@ chk("C08", "proof",
     "absolute begin of every span is frame T+k of one of the file's lines at that line's rate (30 for ':' or 30000/1001 for ';' time codes), "
     "1 <= k <= number of words + 1 - hence on the frame grid, later than the line's time code and inside the line's transmission window; "
     "frames per word (exactly one, none for a dropped second copy); stamps never late; a block of other-channel words / padding changes only "
-    "the elapsed frames and the addressed channel; the second copy of a doubled channel-1 code only clears previous_word. The transcription is "
+    "the elapsed frames and the addressed channel; the second copy of a doubled channel-1 code only clears previous_word; pop-on loading is invisible "
+    "until EOC, EOC/EDM start and end captions at their stamps, a roll-up caption has at most depth rows after CR; with the cursor at the end of "
+    "the row, characters are appended in order (three styles), backspace removes and an extended character replaces the preceding character. The transcription is "
     "tied to the code on every run by comparing, inside Coq, its whole document (ids, begin/end, regions, br/span runs, styles, text) with "
     "ttconv.scc.reader.to_model on generated protocol streams x text_align, unconstrained word streams (all word classes, both channels, malformed "
     "words, exceptions) and the literal streams of test_scc_reader.py. The display half of the property (same characters, rows and attributes as a "
@@ -14,7 +16,7 @@ chk("C08", "proof",
     "Trusted: Coq kernel/vm_compute; harness/c08.py (canonical form of the ContentDocument, parser of the generated files cross-checked against "
     "the model's from_str, verdict ladder); gen_tables.py; my reading of CTA-608 in Spec/Cea608Screen.v; str.splitlines (applied by the harness). "
     "Compared only (no theorem): all cursor / text / region bookkeeping, guess_text_alignment, region extents, and the agreement with the reference "
-    "screen. The simulation theorem C08_popon of the design is not proved (it is false at full strength: 13 recorded findings with refuted theorems "
+    "screen. The simulation theorem C08_popon of the design is not proved (it is false at full strength: 14 recorded findings with refuted theorems "
     "in coq/Findings/C08.v, each delimited by an executable trigger; three of them excuse a whole stream). The property's clause 'within the "
     "transmission window of the word that triggers the change' is proved only for runs without dropped second copies (C08_within_word_window_partial) "
     "and refuted in general (doubled control codes consume no frame).",
